@@ -201,7 +201,7 @@ func c17(c *Ctx) {
 		nRet := 0
 		for _, b := range native.Blocks {
 			for _, in := range b.Instrs {
-				if ret, ok := in.(*ssa.Return); ok && len(ret.Results) == 1 {
+				if ret, ok := an.AsReturn(in); ok && len(ret.Results) == 1 {
 					nRet++
 					if !strings.HasPrefix(tr.OriginString(an.RetVal(ret, 0)), "alloc:mtproto.ErrResponseCode") {
 						allPtr = false
@@ -244,7 +244,7 @@ func c17(c *Ctx) {
 		okName, okNum := false, false
 		for _, b := range expand.Blocks {
 			for _, in := range b.Instrs {
-				if ret, ok := in.(*ssa.Return); ok && len(ret.Results) == 2 {
+				if ret, ok := an.AsReturn(in); ok && len(ret.Results) == 2 {
 					o0, o1 := tr.OriginString(an.RetVal(ret, 0)), tr.OriginString(an.RetVal(ret, 1))
 					if strings.Contains(o0, `+ const:"X")`) && strings.Contains(o0, "prefixSuffix.prefix") && strings.Contains(o0, "prefixSuffix.suffix") {
 						okName = true
@@ -301,7 +301,7 @@ func c17(c *Ctx) {
 			missB, hitB := found.EdgeWhen(false).To(), found.EdgeWhen(true).To()
 			errOK := false
 			for _, in := range missB.Instrs {
-				if ret, ok := in.(*ssa.Return); ok && len(ret.Results) == 1 && !an.IsNilConst(an.RetVal(ret, 0)) {
+				if ret, ok := an.AsReturn(in); ok && len(ret.Results) == 1 && !an.IsNilConst(an.RetVal(ret, 0)) {
 					errOK = true
 				}
 			}
@@ -335,7 +335,7 @@ func c17(c *Ctx) {
 						return
 					}
 					seen[b] = true
-					if ret, ok := b.Instrs[len(b.Instrs)-1].(*ssa.Return); ok && len(ret.Results) == 1 {
+					if ret, ok := an.AsReturn(b.Instrs[len(b.Instrs)-1]); ok && len(ret.Results) == 1 {
 						nRet++
 						v := an.RetVal(ret, 0)
 						if phi, isPhi := v.(*ssa.Phi); isPhi {
@@ -372,6 +372,43 @@ func c17(c *Ctx) {
 			}
 		}
 		r.Check(ok, "R17.M", "request-reissued", c.pos(mk.Pos()), "when the error was handled (nil), makeRequest(data, …) is called again with the same request")
+	}
+	// "the one error handled instead of returned is PHONE_MIGRATE_X": inside the rpc_error arm of makeRequest the
+	// request is issued again only behind the nil edge of tryToProcessErr's result - no other code or text is retried
+	if mk := c.P.Func(load.RootMod, "*MTProto", "makeRequest"); mk != nil {
+		var armHead *ssa.BasicBlock
+		for _, b := range mk.Blocks {
+			for _, in := range b.Instrs {
+				if ta, ok := in.(*ssa.TypeAssert); ok && ta.CommaOk && strings.HasSuffix(ta.AssertedType.String(), "objects.RpcError") {
+					if i, ok := b.Instrs[len(b.Instrs)-1].(*ssa.If); ok {
+						armHead = i.Block().Succs[0]
+					}
+				}
+			}
+		}
+		var handled *an.Cond
+		for _, i := range an.Ifs(mk) {
+			cd, ok := an.Classify(i)
+			if ok && cd.Kind == "nil" && strings.Contains(tr.OriginString(cd.X), "tryToProcessErr") {
+				handled = cd
+			}
+		}
+		if armHead == nil || handled == nil {
+			r.Undecide("R17.M", "only-handled-errors-are-reissued", c.pos(mk.Pos()), "the rpc_error arm or the test of tryToProcessErr's result was not found in makeRequest")
+		} else {
+			var bad []string
+			n := 0
+			for _, cs := range an.Calls(mk) {
+				if !strings.HasSuffix(cs.Name, "MTProto).makeRequest") || !armHead.Dominates(cs.Block) {
+					continue
+				}
+				n++
+				if len(an.Guarded(mk, []an.Edge{handled.EdgeWhen(true)}, []ssa.Instruction{cs.Instr})) != 0 {
+					bad = append(bad, "the re-issue at "+c.pos(cs.Pos())+" does not depend on tryToProcessErr having handled the error")
+				}
+			}
+			r.Check(len(bad) == 0 && n > 0, "R17.M", "only-handled-errors-are-reissued", c.pos(mk.Pos()), sprintf("%d re-issue(s) in the rpc_error arm; %s", n, strings.Join(bad, "; ")))
+		}
 	}
 	// "the address configured for data centre X" is the configuration of THIS client: the table a client looks X
 	// up in is a map made for it, not one it shares with every other client of the process (SetDCList writes
@@ -432,7 +469,7 @@ func freshMap(v ssa.Value, depth int, why *string) bool {
 		if g := an.StaticCallee(x.Common()); g != nil && len(g.Blocks) > 0 && g.Signature.Results().Len() == 1 {
 			n := 0
 			for _, b := range g.Blocks {
-				if ret, ok := b.Instrs[len(b.Instrs)-1].(*ssa.Return); ok {
+				if ret, ok := an.AsReturn(b.Instrs[len(b.Instrs)-1]); ok {
 					n++
 					if !freshMap(an.RetVal(ret, 0), depth+1, why) {
 						return false
